@@ -272,8 +272,13 @@ def fuse_effect(facts, key='simplify::fuse_gadgets'):
         names.append((it['name'], it['args']))
         it = hir.strip(it['recv'])
     skip = [a for nm, a in names if nm == 'skip']
-    src_ok = hir.local(it) and hir.local(it)[1] == val_id and len(skip) == 1 and hir.lit_int(hir.strip(skip[0][0])) == 1
-    res.append(('all-but-first', bool(src_ok), 'the gadgets fused away must be all of the group except the first (`gs.iter().skip(1)`)'))
+    src_ok = None
+    if hir.local(it) and hir.local(it)[1] == val_id:
+        src_ok = len(skip) == 1 and hir.lit_int(hir.strip(skip[0][0])) == 1          # gs.iter().skip(1)
+    elif it.get('k') == 'Index' and hir.local(hir.strip(it['e'])) and hir.local(hir.strip(it['e']))[1] == val_id:
+        rb = hir.range_bounds(it['i'])
+        src_ok = bool(rb and rb[1] is None and hir.lit_int(hir.strip(rb[0])) == 1) if rb else None      # &gs[1..]
+    res.append(('all-but-first', src_ok, 'the gadgets fused away must be all of the group except the first (`gs.iter().skip(1)` / `&gs[1..]`)'))
     ivars = [i for _n, i in hir.bindings(inner['pat'])]
     rem = [c for c in hir.calls(inner['body']) if c.get('k') == 'MethodCall' and c['name'] == 'remove_vertex']
     removed = {hir.local(c['args'][0])[1] for c in rem if hir.local(c['args'][0])}
@@ -285,6 +290,22 @@ def fuse_effect(facts, key='simplify::fuse_gadgets'):
     if len(add) == 1 and hir.local(add[0]['args'][1]):
         acc = hir.local(add[0]['args'][1])[1]
         tgt = hir.strip(add[0]['args'][0])
+        tl_ = hir.local(tgt)
+        tuple_first_leaf = None
+        if tl_ and tl_[1] in lets:
+            tgt = hir.strip(lets[tl_[1]]['init'])          # let first_leaf = gs[0].1;
+        elif tl_:
+            # let (_, keep) = gs[0];
+            for n_ in hir.nodes(grp['body']):
+                if n_.get('k') == 'Let' and n_.get('init') is not None and n_['pat'].get('k') == 'Tuple' and len(n_['pat']['sub']) == 2:
+                    b1 = [i for _nm, i in hir.bindings(n_['pat']['sub'][1])]
+                    b0 = [i for _nm, i in hir.bindings(n_['pat']['sub'][0])]
+                    i0 = hir.strip(n_['init'])
+                    is_first = i0.get('k') == 'Index' and hir.lit_int(hir.strip(i0['i'])) == 0 and hir.local(hir.strip(i0['e'])) and hir.local(hir.strip(i0['e']))[1] == val_id
+                    if tl_[1] in b1:
+                        tuple_first_leaf = bool(is_first)
+                    elif tl_[1] in b0:
+                        tuple_first_leaf = False
         first_leaf = tgt.get('k') == 'Field' and tgt['name'] == '1' and hir.strip(tgt['e']).get('k') == 'Index' and hir.lit_int(hir.strip(hir.strip(tgt['e'])['i'])) == 0 and hir.local(hir.strip(tgt['e'])['e']) and hir.local(hir.strip(tgt['e'])['e'])[1] == val_id
         init_zero = acc in lets and (hir.callee(hir.strip(lets[acc]['init'])) or '').endswith('zero')
         ups = [n for n in hir.nodes(inner['body']) if n.get('k') in ('Assign', 'AssignOp') and hir.local(n['l']) and hir.local(n['l'])[1] == acc]
@@ -299,7 +320,13 @@ def fuse_effect(facts, key='simplify::fuse_gadgets'):
                 fold = bool(rhs_phase) and uses_old and hir.strip(u['r']).get('k') == 'Binary' and hir.strip(u['r'])['op'] == 'Add'
                 if rhs_phase and not uses_old:
                     msg = 'the accumulator is overwritten (`ph = g.phase(v)`) instead of summed: with three or more gadgets in a group the phases of the middle ones are dropped while their vertices are removed'
+        if tuple_first_leaf is not None:
+            first_leaf = tuple_first_leaf
         acc_ok = bool(first_leaf and init_zero and fold)
+        if not acc_ok and not first_leaf and tuple_first_leaf is None and hir.local(hir.strip(add[0]['args'][0])) and hir.local(hir.strip(add[0]['args'][0]))[1] not in lets:
+            acc_ok = None       # the vertex that receives the sum is named in a way the rule does not follow
+    elif not add:
+        acc_ok = None
     res.append(('phase-sum', acc_ok, msg))
     return res
 
@@ -383,10 +410,7 @@ def _d2(ck, facts):
     ck.ob('R-MATCH-point', 'simplify::remove_gadget_pi/pairs-centre-with-leaf', pair_ok and len(applied) == 1, ck.site('simplify::remove_gadget_pi'), 'the (centre, leaf) pairing or the single pi_copy_unchecked application is no longer recognised')
 
     for slot, ok, msg in fuse_effect(facts):
-        if ok is None:
-            ck.violation('R-EFFECT-fuse', 'simplify::fuse_gadgets/' + slot, ck.site('simplify::fuse_gadgets'), msg)
-        else:
-            ck.ob('R-EFFECT-fuse', 'simplify::fuse_gadgets/' + slot, ok, ck.site('simplify::fuse_gadgets'), msg)
+        ck.ob3('R-EFFECT-fuse', 'simplify::fuse_gadgets/' + slot, ok, ck.site('simplify::fuse_gadgets'), msg)
 
 
 def _d4(ck, facts):
